@@ -135,6 +135,29 @@ def legacy_gate(a1: int, b1: int, c1: int, a2: int, b2: int, c2: int) -> bool:
 HI1 = P.get("hi1", 9)
 
 
+def roundtrip_calendar_part(y: int, v: int, bidv: int, tag_i: int) -> bool:
+    """legacy day-of-year / week / day-of-month parts (text half): every value a date can produce is accepted by the compiled
+    pattern in full and carried by its group — KIND selects the part
+    pre: 2000 <= y <= 2099 and CLO <= v <= CHI and BLO <= bidv <= BHI and 0 <= tag_i <= 5
+    post: _
+    """
+    if CFIELD == "doy" and v > symcal.days_in_year(y):
+        return True
+    kw = {CFIELD: v}
+    vi = version.V1VersionInfo(year=y, quarter=None, month=1, dom=None, doy=None, iso_week=None, us_week=None, major=0, minor=0,
+                               patch=0, bid=str(bidv), tag=TAGS[tag_i])._replace(**kw)
+    text = v1version.format_version(vi, PAT)
+    match = v1patterns.compile_pattern(PAT).regexp.match(text)
+    if match is None or len(match.group()) != len(text):
+        return False
+    gd = match.groupdict()
+    return int(gd[CPART]) == v and int(gd["year"]) == y
+
+
+CFIELD, CPART = P.get("cfield", "doy"), P.get("cpart", "doy")
+CLO, CHI = P.get("crange", [1, 366])
+
+
 LEGACY_PATTERNS = ["{pycalver}", "{semver}", "v{year}{month}{build}{release}", "{year}{build}{release}", "{MAJOR}.{MINOR}.{PATCH}",
                    "v{year}.{month_short}.{PATCH}", "v{year}w{iso_week}.{BID}{release}", "{yy}.{quarter}", "{pep440_pycalver}"]
 NEW_PATTERNS = ["MAJOR.MINOR.PATCH", "vYYYY0M.BUILD[-TAG]", "YYYY.MM[.INC0]"]
